@@ -21,6 +21,10 @@ class PathAbort(Exception):
 
 class Explorer:
     current = None
+    # "raise": a feasible zero divisor is an error of the code under test;  "assume": inputs with a zero divisor are
+    # outside the domain (numpy would produce nan/inf, the quantity is undefined) -- counted in `assumed_nonzero`
+    div_zero_policy = "raise"
+    assumed_nonzero = 0
 
     def __init__(self, prefix, pre=(), decide_timeout_ms=3000):
         self.prefix = list(prefix)
@@ -49,7 +53,9 @@ class Explorer:
         r = s.check()
         s.pop()
         if r == z3.sat:
-            raise ZeroDivisionError("symbolic division by zero is feasible")
+            if Explorer.div_zero_policy == "raise":
+                raise ZeroDivisionError("symbolic division by zero is feasible")
+            Explorer.assumed_nonzero += 1
         if r == z3.unknown:
             self.uncertain += 1
             self.undecided_guards.append(str(d)[:200])
@@ -145,7 +151,7 @@ class Sym:
         ex = Explorer.current
         if ex is not None:
             ex.nonzero(d)
-        return Sym(self.t / d)
+        return Sym(_div(self.t, d))
 
     def __rtruediv__(self, o):
         if isinstance(o, np.ndarray):
@@ -153,7 +159,7 @@ class Sym:
         ex = Explorer.current
         if ex is not None:
             ex.nonzero(self.t)
-        return Sym(tz(o) / self.t)
+        return Sym(_div(tz(o), self.t))
 
     def __neg__(self):
         return Sym(-self.t)
@@ -220,6 +226,15 @@ class Sym:
         return self
 
 
+def _div(a, b):
+    """a / b with a numeral divisor folded into an exact rational factor (keeps the arithmetic linear)."""
+    b = z3.simplify(b)
+    if z3.is_rational_value(b) and b.numerator_as_long() != 0:
+        inv = Fraction(b.denominator_as_long(), b.numerator_as_long())
+        return z3.simplify(a * z3.RealVal(str(inv)))
+    return a / b
+
+
 _SQRT = z3.Function("sqrt", REAL, REAL)
 
 
@@ -272,17 +287,38 @@ def explore(run, pre_builder=None, max_paths=5000):
 
 
 def prove(pc, goal, timeout_ms=20000):
-    """unsat(pc and not goal)?  returns 'unsat' | 'sat' | 'unknown' and a model for sat."""
-    s = z3.Solver()
-    s.set("timeout", timeout_ms)
-    s.add(*pc)
-    s.add(z3.Not(goal))
-    r = s.check()
+    """unsat(pc and not goal)?  returns 'unsat' | 'sat' | 'unknown' (+ model for sat).
+    z3 first (short budget); for `unknown` cvc5 on the SMT-LIB text (it decides mixed int/real linear problems z3
+    gives up on), then z3's nlsat tactic, then z3 with the full budget.  Only `unsat` is taken from cvc5."""
+    import os
+    import subprocess
+    import tempfile
+
+    def z3_try(ms):
+        s = z3.Solver()
+        s.set("timeout", ms)
+        s.add(*pc)
+        s.add(z3.Not(goal))
+        r = s.check()
+        return r, s
+
+    r, s = z3_try(min(1500, timeout_ms))
     if r == z3.unsat:
         return "unsat", None
     if r == z3.sat:
         return "sat", s.model()
-    # second attempt with the nonlinear tactic
+    if os.path.exists("/usr/bin/cvc5"):
+        with tempfile.NamedTemporaryFile("w", suffix=".smt2", delete=False, dir=os.environ.get("VERIF_SCRATCH", "/var/tmp")) as f:
+            f.write(s.to_smt2())
+            name = f.name
+        try:
+            out = subprocess.run(["/usr/bin/cvc5", f"--tlimit={timeout_ms}", name], capture_output=True, text=True, timeout=timeout_ms / 1000 + 5)
+            if (out.stdout.strip().splitlines() or [""])[0].strip() == "unsat":
+                return "unsat", None
+        except (subprocess.TimeoutExpired, OSError):
+            pass
+        finally:
+            os.unlink(name)
     t = z3.Then("simplify", "purify-arith", "nlsat").solver()
     t.set("timeout", timeout_ms)
     t.add(*pc)
@@ -295,4 +331,10 @@ def prove(pc, goal, timeout_ms=20000):
         return "unsat", None
     if r == z3.sat:
         return "sat", t.model()
+    if timeout_ms > 5000:
+        r, s = z3_try(timeout_ms)
+        if r == z3.unsat:
+            return "unsat", None
+        if r == z3.sat:
+            return "sat", s.model()
     return "unknown", None
